@@ -478,6 +478,10 @@ class PyReader:
                     return l - r
                 if isinstance(n.op, ast.Mult):
                     return l * r
+                if isinstance(n.op, (ast.Mod, ast.FloorDiv)):
+                    if r == 0:
+                        raise Raised("ZeroDivisionError", getattr(n, "lineno", 0))
+                    return l % r if isinstance(n.op, ast.Mod) else l // r
             o = {ast.Add: "add", ast.Sub: "sub", ast.Mult: "mul", ast.Div: "div", ast.Pow: "pow"}.get(type(n.op))
             if o is None:
                 self.fail(n, "operator")
@@ -491,7 +495,7 @@ class PyReader:
             if isinstance(o, (ast.Is, ast.IsNot)):
                 res = (l is r) if (l is None or r is None) else (l == r)
                 return res if isinstance(o, ast.Is) else not res
-            if isinstance(o, (ast.In, ast.NotIn)) and isinstance(r, (list, dict)):
+            if isinstance(o, (ast.In, ast.NotIn)) and (isinstance(r, (list, dict)) or (isinstance(r, str) and isinstance(l, str))):
                 res = l in r
                 return res if isinstance(o, ast.In) else not res
             if isinstance(o, (ast.Eq, ast.NotEq)):
